@@ -1,4 +1,6 @@
 """C16 -- JSON output is valid JSON that states the message's values."""
+import random
+
 from .. import cdrive, common, gen, tlc
 from ..report import Report
 from . import cwire, designlevel, pywire
@@ -25,6 +27,8 @@ def main(tier, replay=None):
             pycases = []
             for k in range(n):
                 prog, rng = gen.rand_case(seed, k, max_bits=rng_bits(k))
+                if k % 4 == 1:
+                    gen.long_field_names(prog, random.Random("c16long/%d/%d" % (seed, k)))
                 t = prog["rtype"]
                 vals = [gen.gen_value(rng, t, "zero"), gen.gen_value(rng, t, "ones")]
                 vals += [gen.gen_value(rng, t, "rand") for _ in range(nv - 2)]
@@ -38,6 +42,8 @@ def main(tier, replay=None):
             ccases = []
             for k in range(n):
                 prog, rng = gen.rand_case(seed, k, max_bits=rng_bits(k))
+                if k % 4 == 1:
+                    gen.long_field_names(prog, random.Random("c16long/%d/%d" % (seed, k)))
                 t = prog["rtype"]
                 vals = [gen.gen_value(rng, t, "zero"), gen.gen_value(rng, t, "ones")]
                 vals += [gen.gen_value(rng, t, "rand") for _ in range(nv - 2)]
